@@ -630,6 +630,11 @@ func (vo *vectorIndexOpaque) process(field index.VectorField, fieldID uint16, do
 
 		// NOTE: currently, indexing only unique vectors.
 		subVecHash := hashCode(subVec)
+		// the random half of the hash can repeat for identical vectors; an id
+		// already taken in this batch would silently drop this vector.
+		for _, taken := vo.vecIDMap[subVecHash]; taken; _, taken = vo.vecIDMap[subVecHash] {
+			subVecHash = hashCode(subVec)
+		}
 		if _, ok := vo.vecIDMap[subVecHash]; !ok {
 			vo.vecIDMap[subVecHash] = &vecInfo{
 				docID: docNum,
